@@ -98,7 +98,12 @@ def _random_scene(rng):
         size = rng.randrange(1, 5)
         start = rng.randrange(0, length)
         strand = rng.choice([1, -1])
-        if start + size <= length:
+        if start + size + 2 <= length and rng.random() < 0.3:
+            # a spliced gene that stays on one side of the origin
+            parts = [[start, start + 1], [start + 2, start + 2 + size]]
+            if strand == -1:
+                parts.reverse()
+        elif start + size <= length:
             parts = [[start, start + size]]
         elif circ:
             parts = [[start, length], [0, start + size - length]]
@@ -159,8 +164,12 @@ def _features(case):
         for child in node["args"]:
             walk(child, inside_cds or node["k"] == "cds")
     walk(case["tree"], False)
-    if any(len(loc["parts"]) > 1 for loc in case["scene"]["locs"]):
+    if any(len(loc["parts"]) > 1 and min(p[0] for p in loc["parts"]) == 0 and max(p[1] for p in loc["parts"]) == case["scene"]["L"]
+           and case["scene"]["circ"] for loc in case["scene"]["locs"]):
         feats.append("gene_spans_origin")
+    if any(len(loc["parts"]) > 1 and not (min(p[0] for p in loc["parts"]) == 0 and max(p[1] for p in loc["parts"]) == case["scene"]["L"])
+           for loc in case["scene"]["locs"]):
+        feats.append("spliced_gene")
     return sorted(set(feats))
 
 
